@@ -93,7 +93,7 @@ def _If(cond, a, b):
     return SymReal(z3.If(c, lift(a), lift(b)))
 
 
-def c19_fastcc(E, templates=(("T6", ("EX_A",)), ("T2", ("R1",)))):
+def c19_fastcc(E, templates=(("T2", ("R1",)), ("T2", ("EX_A",)), ("T3", ("R2",)))):
     """solver-independent part: every kept reaction can carry flux, is unchanged, input untouched.
     Completeness (every non-blocked reaction kept) depends on which optimal solution the solver returns;
     it is evaluated on the concrete GLPK replays only (known finding, DESIGN section 6)."""
@@ -134,7 +134,7 @@ HARNESSES = [
     H("c19_blocked_thorough", lambda E: c19_blocked(E, THOROUGH_T), tiers=("thorough",),
       thorough=dict(max_paths=300000, time_budget=600), bounds="T6,T3,T2,T5 with 4-5 symbolic reactions"),
     H("c19_fastcc", c19_fastcc, tiers=("quick",), quick=dict(max_paths=3000, time_budget=60), witness_every=3,
-      bounds="T6 and T2 with 1 symbolic reaction; soundness/unchanged/cross-references symbolically; completeness on GLPK "
+      bounds="T2 (R1 or EX_A symbolic) and T3 (R2 symbolic); soundness/unchanged/cross-references symbolically; completeness on GLPK "
              "replays only (depends on the optimal solution returned)"),
     H("c19_fastcc_thorough", lambda E: c19_fastcc(E, (("T6", ("EX_A", "DEAD")), ("T2", ("EX_A", "R1", "DM_B")), ("T3", ("EX_A", "R2")))),
       tiers=("thorough",), thorough=dict(max_paths=100000, time_budget=500), witness_every=5,
